@@ -47,8 +47,8 @@ theorem relEdit_commutes {d : ClassDiagram} (wf : WF d) {r : Nat} {f : Rel → R
   unfold extract mapGroup mapRel
   simp only [Schema.mk.injEq]
   rw [List.filter_map, List.filterMap_map, List.map_filterMap]
-  have hp : ∀ k ∈ d.rels, ((fun (x : Rel) => inScope d.containers comp x.parent) ∘
-      (fun k => if k.id == r then f k else k)) k = inScope d.containers comp k.parent := by
+  have hp : ∀ k ∈ d.rels, ((fun (x : Rel) => inScope d.containers d.pkgrefs comp x.parent) ∘
+      (fun k => if k.id == r then f k else k)) k = inScope d.containers d.pkgrefs comp k.parent := by
     intro k hk
     simp only [Function.comp]
     by_cases he : k.id = r
@@ -294,11 +294,11 @@ theorem moveRel_commutes (r : Nat) (p : Parent) (comp : Option Nat) (drv : Bool)
       intro s s' a b; cases s; cases s'; simp_all
     have hclasses : (extract (applyEdit (.moveRel r p) d) comp drv).classes = (extract d comp drv).classes := rfl
     have hnew : (extract (applyEdit (.moveRel r p) d) comp drv).groups =
-        ((l1.filter (fun k => inScope d.containers comp k.parent)).filterMap (groupOf d)) ++
-        (if inScope d.containers comp p then (groupOf d kr).toList else []) ++
-        ((l2.filter (fun k => inScope d.containers comp k.parent)).filterMap (groupOf d)) := by
+        ((l1.filter (fun k => inScope d.containers d.pkgrefs comp k.parent)).filterMap (groupOf d)) ++
+        (if inScope d.containers d.pkgrefs comp p then (groupOf d kr).toList else []) ++
+        ((l2.filter (fun k => inScope d.containers d.pkgrefs comp k.parent)).filterMap (groupOf d)) := by
       show ((d.rels.map (fun k => if k.id == r then { k with parent := p } else k)).filter
-        (fun k => inScope d.containers comp k.parent)).filterMap (groupOf d) = _
+        (fun k => inScope d.containers d.pkgrefs comp k.parent)).filterMap (groupOf d) = _
       rw [hl, List.map_append, List.map_cons]
       have e1 : l1.map (fun k => if k.id == r then { k with parent := p } else k) = l1 := by
         conv => rhs; rw [← List.map_id l1]
@@ -312,13 +312,13 @@ theorem moveRel_commutes (r : Nat) (p : Parent) (comp : Option Nat) (drv : Bool)
       simp only [hkr, beq_self_eq_true, if_true]
       rfl
     have hold : (extract d comp drv).groups =
-        ((l1.filter (fun k => inScope d.containers comp k.parent)).filterMap (groupOf d)) ++
-        (if inScope d.containers comp kr.parent then (groupOf d kr).toList else []) ++
-        ((l2.filter (fun k => inScope d.containers comp k.parent)).filterMap (groupOf d)) := by
-      show (d.rels.filter (fun k => inScope d.containers comp k.parent)).filterMap (groupOf d) = _
+        ((l1.filter (fun k => inScope d.containers d.pkgrefs comp k.parent)).filterMap (groupOf d)) ++
+        (if inScope d.containers d.pkgrefs comp kr.parent then (groupOf d kr).toList else []) ++
+        ((l2.filter (fun k => inScope d.containers d.pkgrefs comp k.parent)).filterMap (groupOf d)) := by
+      show (d.rels.filter (fun k => inScope d.containers d.pkgrefs comp k.parent)).filterMap (groupOf d) = _
       conv => lhs; rw [hl]
       rw [filter_filterMap_split]
-    have hrel1 : ∀ g ∈ (l1.filter (fun k => inScope d.containers comp k.parent)).filterMap (groupOf d),
+    have hrel1 : ∀ g ∈ (l1.filter (fun k => inScope d.containers d.pkgrefs comp k.parent)).filterMap (groupOf d),
         g.rel ≠ kr.numb := by
       intro g hg he
       obtain ⟨k, hk, hgk⟩ := List.mem_filterMap.mp hg
@@ -326,7 +326,7 @@ theorem moveRel_commutes (r : Nat) (p : Parent) (comp : Option Nat) (drv : Bool)
       have hm : k ∈ d.rels := by rw [hl]; simp [hkl]
       have := wf.numb_inj hm (findRel_mem hr) (by rw [← groupOf_rel hgk, he])
       exact h1 k hkl (by rw [this, hkr])
-    have hrel2 : ∀ g ∈ (l2.filter (fun k => inScope d.containers comp k.parent)).filterMap (groupOf d),
+    have hrel2 : ∀ g ∈ (l2.filter (fun k => inScope d.containers d.pkgrefs comp k.parent)).filterMap (groupOf d),
         g.rel ≠ kr.numb := by
       intro g hg he
       obtain ⟨k, hk, hgk⟩ := List.mem_filterMap.mp hg
@@ -336,12 +336,12 @@ theorem moveRel_commutes (r : Nat) (p : Parent) (comp : Option Nat) (drv : Bool)
       exact h2 k hkl (by rw [this, hkr])
     cases hg : groupOf d kr with
     | none =>
-      cases hin : inScope d.containers comp kr.parent <;> cases hout : inScope d.containers comp p <;>
+      cases hin : inScope d.containers d.pkgrefs comp kr.parent <;> cases hout : inScope d.containers d.pkgrefs comp p <;>
         dsimp only <;> apply hschema _ _ hclasses <;> rw [hnew, hout] <;>
         show _ = (extract d comp drv).groups <;> rw [hold, hin, hg] <;> simp
     | some g =>
       have hgrel : g.rel = kr.numb := groupOf_rel hg
-      cases hin : inScope d.containers comp kr.parent <;> cases hout : inScope d.containers comp p
+      cases hin : inScope d.containers d.pkgrefs comp kr.parent <;> cases hout : inScope d.containers d.pkgrefs comp p
       · dsimp only
         apply hschema _ _ hclasses
         rw [hnew, hout]
@@ -367,11 +367,11 @@ theorem moveRel_commutes (r : Nat) (p : Parent) (comp : Option Nat) (drv : Bool)
           List.filter_append, List.filter_cons, List.append_assoc, List.singleton_append]
         have f1 := List.filter_eq_self.mpr (fun g' hg' => by
           have := hrel1 g' hg'; simpa using this :
-          ∀ g' ∈ (l1.filter (fun k => inScope d.containers comp k.parent)).filterMap (groupOf d),
+          ∀ g' ∈ (l1.filter (fun k => inScope d.containers d.pkgrefs comp k.parent)).filterMap (groupOf d),
             (fun (g : SGroup) => g.rel != kr.numb) g' = true)
         have f2 := List.filter_eq_self.mpr (fun g' hg' => by
           have := hrel2 g' hg'; simpa using this :
-          ∀ g' ∈ (l2.filter (fun k => inScope d.containers comp k.parent)).filterMap (groupOf d),
+          ∀ g' ∈ (l2.filter (fun k => inScope d.containers d.pkgrefs comp k.parent)).filterMap (groupOf d),
             (fun (g : SGroup) => g.rel != kr.numb) g' = true)
         rw [f1, f2]
         simp [hgrel]
